@@ -107,7 +107,7 @@ impl Prop for Histories {
         let nontrivial = if self.positions {
             st.seeks >= 1 && st.reads_after_seek >= 1 && st.records_checked >= 1
         } else {
-            st.kinds_used >= 2 && (st.switches_mid_buffer > 0 || st.exact_crossing_eof > 0 || st.refill_smaller > 0)
+            st.kinds_used >= 2 && st.records_checked >= 2 && (st.switches_mid_buffer > 0 || st.exact_crossing_eof > 0 || st.refill_smaller > 0)
         };
         if nontrivial {
             ctx.nontrivial(c, c);
@@ -116,7 +116,7 @@ impl Prop for Histories {
     }
 }
 
-pub const RULE_C04: &str = "cases = (format, document (mostly well-formed; FASTQ also with one defect at a generated record), capacity absolute or aimed at record boundaries, permissive policy, chunk/interrupt script, history of 0..24 operations over {next, records() step, read_record_set(slot 0..2), read_record_set_exact(slot, n in 1..20), seek to a record, seek to a position reported earlier, into_records()}). Oracle: strict cursor model (exactly once, in order, content equal to the reference record, k >= 1 for plain sets, k = min(n, remaining) for exact sets, end only with nothing left, untouched slots unchanged, refilled slot = new batch only, error only after all preceding records). Exhaustive sub-check: every operation sequence of length <= 4 (thorough: 5) over an 8-operation alphabet x 6 fixed small documents x 7 capacities. Non-trivial = the history uses >= 2 read kinds and (switches kind right after a set read, or an exact read crosses the end, or a slot is refilled with fewer records than it held). Distinct = hash(case).";
+pub const RULE_C04: &str = "cases = (format, document (mostly well-formed; FASTQ also with one defect at a generated record), capacity absolute or aimed at record boundaries, permissive policy, chunk/interrupt script, history of 0..24 operations over {next, records() step, read_record_set(slot 0..2), read_record_set_exact(slot, n in 1..20), seek to a record, seek to a position reported earlier, into_records()}). Oracle: strict cursor model (exactly once, in order, content equal to the reference record, k >= 1 for plain sets, k = min(n, remaining) for exact sets, end only with nothing left, untouched slots unchanged, refilled slot = new batch only, error only after all preceding records). Exhaustive sub-check: every operation sequence of length <= 4 (thorough: 5) over an 8-operation alphabet x 6 fixed small documents x 7 capacities. Non-trivial = the history uses >= 2 read kinds, delivers >= 2 records and (switches kind right after a set read, or an exact read crosses the end, or a slot is refilled with fewer records than it held). Distinct = hash(case).";
 
 pub const RULE_C05: &str = "cases as for C04 but seek-heavy (about 40 % seeks), long leading blank regions, capacities smaller and larger than the distance to the target. Oracle: after next() the reported position equals the model's (line, byte) of that record; after a set read a reported position equals the coordinates of the next unread record (or of the invalid FASTQ group); after a seek the reads follow the cursor model from the target (seeking to an invalid FASTQ record reproduces its error). Exhaustive sub-check as for C04, with positions compared. Non-trivial = >= 1 seek followed by >= 1 read that returned a record. Distinct = hash(case).";
 
